@@ -305,15 +305,41 @@ def _dispatch_roles(M, wrapper, kernel_name):
     """param -> (list name, k) from the dispatch call `kernel(output, input, batch_size, blk_shape[-1], ...)`"""
     f = M.func("sigpy.block." + wrapper)
     k = M.func("sigpy.block." + kernel_name)
-    calls = [c for c in calls_in(f.node) if isinstance(c.func, ast.Name) and c.func.id == kernel_name]
-    if len(calls) != 1:
-        raise Unrecognised("%d dispatch sites for %s" % (len(calls), kernel_name), f.node)
-    c = calls[0]
+    # the call of the kernel sits in the wrapper itself or in private helpers it delegates the dispatch to; names used at the call site are
+    # traced back through the helpers' parameters to the wrapper's own names
+    found = []
+    work = [(f, {})]
+    visited = set()
+    while work:
+        cur, ren = work.pop()
+        if cur.qual in visited:
+            continue
+        visited.add(cur.qual)
+        for c_ in calls_in(cur.node):
+            if isinstance(c_.func, ast.Name) and c_.func.id == kernel_name:
+                found.append((cur, c_, ren))
+                continue
+            tg_ = M.resolve_call(cur, c_)
+            if tg_[0] == "repo" and tg_[1].mod is f.mod and tg_[1].cls is None and tg_[1].name.startswith("_") and tg_[1].qual != k.qual \
+                    and not any(d_ for d_ in tg_[1].node.decorator_list):
+                try:
+                    b_ = M.bind(c_, tg_[1])
+                except Unrecognised:
+                    continue
+                ren2 = {}
+                for p_, n_ in b_.items():
+                    if isinstance(n_, ast.Name):
+                        ren2[p_] = ren.get(n_.id, n_.id)
+                work.append((tg_[1], ren2))
+    if len(found) != 1:
+        raise Unrecognised("%d dispatch sites for %s" % (len(found), kernel_name), f.node)
+    site_f, c, rename = found[0]
     bound = M.bind(c, k)
     roles = {}
 
     def role_of(name):
         """a parameter of the wrapper keeps its (API) name; a local is classified by what it is defined as"""
+        name = rename.get(name, name)
         if name in f.params:
             return name
         defs = [n for n in ast.walk(f.node) if isinstance(n, ast.Assign) and len(n.targets) == 1 and isinstance(n.targets[0], ast.Name) and n.targets[0].id == name]
